@@ -70,13 +70,13 @@ SPEC = {
         "sets pointwise (membership functions; batches = (added, deleted) membership): faithful because ds.Set.Apply, SetArithmetic and the reactive set treat one element at a time; iteration order of ds.Set is not modelled (outputs are sorted)",
         "DerivedVariable/InheritFrom protocol model: input variables with update-order mutex, value store, callback execution lock, registration; the derived variable's own subscribers are not modelled (compositional: acyclic derivation graph); compute = function of the inputs only (a compute that depends on currentValue defines a fold, not a function of the inputs)",
         "DerivedVariable call by call (inputs with values at creation, initial value, Unsubscribe, DeriveValueFrom)",
-        "Counter, EvictionState (slots = Nat within the exact range of the slot type; the probing loop of evict is executed literally with wrap-around at the top of the type for every admitted slot type; negative, fractional and beyond-precision float slots not modelled), WaitGroup (call by call and as protocol model with atomic steps = set insertion / deletion, counter add, Trigger)",
+        "Counter, EvictionState (slots = Int: every integer slot type and, counted in quarters, float slots between two integers; evict = the registered slots up to the evicted one in ascending order; float slots beyond the exactly representable range and 64-bit unsigned slots above MaxInt64 not generated), WaitGroup (call by call and as protocol model with atomic steps = set insertion / deletion, counter add, Trigger)",
         "SortedSet sequentially (slice + index fields + heaviest/lightest); Less modelled as < on element ids; the addSorted window is modelled separately swap by swap (Win.winSys)",
         "deadlock freedom at the level of lock scripts computed from the regenerated skeletons (all locks exclusive; control flow flattened; per-function token environments hand-written); also tied by the stress watchdog",
         "unsubscribe functions are called at most once (a second call of a DerivedSet's unsubscribe subtracts the mirror again: modelled as the code does it, excluded by the theorem's hypothesis)",
     ],
     "manifest": {
-        "text": "Unbounded Lean theorems: for every history of source writes (Add/Delete/Apply/Replace), InheritFrom and unsubscriptions a DerivedSet equals the union of its live sources via occurrence counts (C14_derived_set), SubtractReactive the source minus the others (C14_subtract), a Counter the number of monitored inputs satisfying the condition (C14_counter), a SortedSet is sorted by current weight with consistent indices and Heaviest/Lightest at the ends and ignores weights of absent elements (C14_sorted_set*), an EvictionState has triggered exactly the events of slots up to the last evicted slot (C14_eviction*) on every admitted slot type, its probing loop terminating also for the largest slot of the type (C14_eviction_loop_terminates, C14_eviction_width*; C14_eviction_old_loop_witness for the loop before the repair), a DerivedVariable call by call equals compute of the inputs at its last recomputation, the current ones while subscribed, and is frozen by Unsubscribe (C14_derived_var_unsubscribe, C14_derived_var_frozen), under asynchronous in-order delivery (every interleaving of writers on different sources, subscribers, unsubscribers, Add/Delete and weight updates) DerivedSet, Counter and SortedSet satisfy the same at quiescence (C14_derived_set_concurrent, C14_counter_concurrent, C14_sorted_set_concurrent), a WaitGroup triggers iff its last pending element is marked done (C14_waitgroup_sequential, and C14_waitgroup / C14_waitgroup_only_if / C14_waitgroup_counter for any pool of Add/Done goroutines under every schedule); for any number of writers with arbitrary scripts and the constructor running concurrently a DerivedVariable equals compute(current inputs) at quiescence and InheritFrom copies its source (C14_derived_var, C14_derived_var_steady, C14_inherit); SubtractReactive and EvictionState have protocol-level theorems too (C14_subtract_concurrent, C14_eviction_concurrent); the lock scripts are computed from the regenerated skeletons, ranked for every instantiation, and no pool of catalogue calls deadlocks, fresh and conditional callback-lock acquisitions and leaf mutexes included (C14_scripts_ranked, C14_deadlock_free, C14_ranked_deadlock_free); the repaired addSorted callback always holds the mutex (C14_sorted_set_callback_locked). Witness theorems for the six repaired defects (incl. the addSorted window, decided by a forced schedule through a second verif hook). Tie on every run: line-by-line differential of ~3200 random call histories against the real ds/reactive code, concurrent stress to quiescence (writers + structural changes) whose final input/derived values are decided by the Lean driver with the predicates of the theorems, progress watchdogs (sequential and concurrent), the forced WaitGroup schedule through a verif hook, an independent Go oracle of every defining function, slot types / slot jumps / sizes / values of every magnitude (4096, 65536, 2^20 thresholds; size scenarios up to 2^20 elements), and 36 regenerated synchronisation skeletons and type facts as proof obligations.",
+        "text": "Unbounded Lean theorems: for every history of source writes (Add/Delete/Apply/Replace), InheritFrom and unsubscriptions a DerivedSet equals the union of its live sources via occurrence counts (C14_derived_set), SubtractReactive the source minus the others (C14_subtract), a Counter the number of monitored inputs satisfying the condition (C14_counter), a SortedSet is sorted by current weight with consistent indices and Heaviest/Lightest at the ends and ignores weights of absent elements (C14_sorted_set*), an EvictionState has triggered exactly the events of slots up to the last evicted slot (C14_eviction*) for slots of either sign and float slots between two integers (C14_eviction_fire; witnesses C14_eviction_old_negative_witness, C14_eviction_old_fractional_witness, C14_eviction_old_loop_witness for the probing loop before the repairs), a DerivedVariable call by call equals compute of the inputs at its last recomputation, the current ones while subscribed, and is frozen by Unsubscribe (C14_derived_var_unsubscribe, C14_derived_var_frozen), under asynchronous in-order delivery (every interleaving of writers on different sources, subscribers, unsubscribers, Add/Delete and weight updates) DerivedSet, Counter and SortedSet satisfy the same at quiescence (C14_derived_set_concurrent, C14_counter_concurrent, C14_sorted_set_concurrent), a WaitGroup triggers iff its last pending element is marked done (C14_waitgroup_sequential, and C14_waitgroup / C14_waitgroup_only_if / C14_waitgroup_counter for any pool of Add/Done goroutines under every schedule); for any number of writers with arbitrary scripts and the constructor running concurrently a DerivedVariable equals compute(current inputs) at quiescence and InheritFrom copies its source (C14_derived_var, C14_derived_var_steady, C14_inherit); SubtractReactive and EvictionState have protocol-level theorems too (C14_subtract_concurrent, C14_eviction_concurrent); the lock scripts are computed from the regenerated skeletons, ranked for every instantiation, and no pool of catalogue calls deadlocks, fresh and conditional callback-lock acquisitions and leaf mutexes included (C14_scripts_ranked, C14_deadlock_free, C14_ranked_deadlock_free); the repaired addSorted callback always holds the mutex (C14_sorted_set_callback_locked). Witness theorems for the eight repaired defects (incl. the addSorted window, decided by a forced schedule through a second verif hook). Tie on every run: line-by-line differential of ~3200 random call histories against the real ds/reactive code, concurrent stress to quiescence (writers + structural changes) whose final input/derived values are decided by the Lean driver with the predicates of the theorems, progress watchdogs (sequential and concurrent), the forced WaitGroup schedule through a verif hook, an independent Go oracle of every defining function, slot types / slot jumps / sizes / values of every magnitude (4096, 65536, 2^20 thresholds; size scenarios up to 2^20 elements), and 36 regenerated synchronisation skeletons and type facts as proof obligations.",
         "note": "Trusted: Lean kernel; hand-written models (Hive/Model/Derived*.lean) tied by differential execution, quiescence predicates and regenerated skeletons; lock scripts hand-written (ranks proved, scripts tied only by skeletons + watchdog); derivation graph assumed acyclic, user callbacks opaque; compute functions of inputs only; unsubscribe functions called at most once.",
         "technique": "Lean 4 invariant proofs by induction over call histories and over reachable configurations of interleaving protocol models (arbitrary thread pools) + lock-rank theorem + differential / quiescence / skeleton correspondence",
     },
